@@ -261,6 +261,37 @@ def escalate(r, grammars, props, res):
         r._escalating = False
 
 
+def long_inputs(r, props, sizes, fams=("lr", "lr2", "hidden", "mutual", "arith", "brackets2"), tag="long"):
+    """inputs of 60-130 positions on the left-recursive families of C17MC (grammar and input come from the specification):
+    only the events of the top-level calls are recorded and the property predicates judge them (Derivation!Ends for an
+    input of that length is cheap; stepping the machine through tens of thousands of events is not)"""
+    if enough(r):
+        return None
+    cfg = ('CONSTANTS PinnedSeqReset = FALSE PinnedAnyDrop = FALSE Fams = {%s} Sizes = {%s} RunMachine = FALSE Variants = {"good", "bad"}\n'
+           'INIT Init\nNEXT Next\nINVARIANTS Export\nCHECK_DEADLOCK FALSE\n' % (", ".join('"%s"' % f for f in fams), ", ".join(map(str, sizes))))
+    o = r.tlc("C17MC", cfg_text=cfg, workers=4, timeout=900, count=False)
+    if not o.ok or not o.prints:
+        raise core.Inconclusive("C17MC (long inputs) failed: %r" % o)
+    cases = []
+    for c in sorted(o.prints, key=lambda c: (c["fam"], c["n"])):
+        G, w, B = c["G"], c["w"], 1
+        nts = [i + 1 for i, n in enumerate(G) if n["k"] == "memo"]
+        asks = [[c["root"], B]] + [[n, B] for n in nts] + [[n, B + len(w) // 2] for n in nts]
+        cases.append({"G": G, "w": w, "B": B, "adm": True, "fam": c["fam"],
+                      "asks": [{"n": a[0], "p": a[1], "res": [], "err": [], "calls": 0, "cerr": [], "ends": []} for a in asks]})
+    inp = r.path("%s-cases-%d.ndjson" % (tag, r._k))
+    core.write_ndjson(inp, cases)
+    tr = r.path("%s-trace-%d.ndjson" % (tag, r._k))
+    r.pvh("parse", "replay", **{"in": inp, "out": r.path("%s-%d.json" % (tag, r._k)), "trace": tr, "budget": 3000000, "toponly": 1, "trees": 0}, timeout=3000)
+    rows = core.read_ndjson(tr)
+    res = {"violations": 0}
+    judge_file(r, tr, rows, props, res)
+    nb = sum(1 for x in rows if x.get("ev") == "begin")
+    r.evaluations += nb
+    r.traces += nb if res["violations"] == 0 else 0
+    return {"families": list(fams), "sizes": list(sizes), "cases": len(cases), "judged": nb, "violations": res["violations"]}
+
+
 def replay_cases(r, cases, tag, props, watch=False, budget=4000, validate=True, chunks=None, trees=False):
     """model -> code: run exported cases on the real combinators; then validate the recorded traces"""
     if not cases:
